@@ -53,6 +53,19 @@ type loader struct {
 	refSigUnits      map[string]*SignalUnit
 	refSigEnums      map[string]*SignalEnum
 	refAttributes    map[string]Attribute
+
+	// entity ids of the messages loaded so far
+	msgEntIDs map[EntityID]struct{}
+	// entity ids of the signals loaded so far, each with the message
+	// or multiplexer signal that lists it
+	sigEntIDs map[EntityID]loaderSignalOwner
+}
+
+// loaderSignalOwner identifies the message or the multiplexer signal
+// a saved signal is listed by.
+type loaderSignalOwner struct {
+	kind     EntityKind
+	entityID EntityID
 }
 
 func newLoader() *loader {
@@ -63,6 +76,9 @@ func newLoader() *loader {
 		refSigUnits:      make(map[string]*SignalUnit),
 		refSigEnums:      make(map[string]*SignalEnum),
 		refAttributes:    make(map[string]Attribute),
+
+		msgEntIDs: make(map[EntityID]struct{}),
+		sigEntIDs: make(map[EntityID]loaderSignalOwner),
 	}
 }
 
@@ -283,9 +299,18 @@ func (l *loader) loadSignalPayload(pSigPayload *acmelibv1.SignalPayload) map[str
 func (l *loader) loadMessage(pMsg *acmelibv1.Message) (*Message, error) {
 	msg := newMessageFromEntity(l.loadEntity(pMsg.GetEntity(), EntityKindMessage), MessageID(pMsg.MessageId), int(pMsg.SizeByte))
 
+	// two messages of a network cannot share the entity id
+	if _, ok := l.msgEntIDs[msg.entityID]; ok {
+		return nil, &EntityIDError{
+			EntityID: msg.entityID,
+			Err:      ErrIsDuplicated,
+		}
+	}
+	l.msgEntIDs[msg.entityID] = struct{}{}
+
 	sigMap := l.loadSignalPayload(pMsg.GetPayload())
 	for _, pSig := range pMsg.Signals {
-		sig, err := l.loadSignal(pSig)
+		sig, err := l.loadSignal(pSig, loaderSignalOwner{EntityKindMessage, msg.entityID})
 		if err != nil {
 			return nil, err
 		}
@@ -376,7 +401,7 @@ func (l *loader) loadMessage(pMsg *acmelibv1.Message) (*Message, error) {
 	return msg, nil
 }
 
-func (l *loader) loadSignal(pSig *acmelibv1.Signal) (Signal, error) {
+func (l *loader) loadSignal(pSig *acmelibv1.Signal, owner loaderSignalOwner) (Signal, error) {
 	var kind SignalKind
 	switch pSig.Kind {
 	case acmelibv1.SignalKind_SIGNAL_KIND_STANDARD:
@@ -388,6 +413,17 @@ func (l *loader) loadSignal(pSig *acmelibv1.Signal) (Signal, error) {
 	}
 
 	baseSig := newSignalFromEntity(l.loadEntity(pSig.GetEntity(), EntityKindSignal), kind)
+
+	// two signals of a network cannot share the entity id (the reference
+	// sets of types, units and enums are keyed by it); only a multiplexer
+	// signal may list one of its signals more than once
+	if prevOwner, ok := l.sigEntIDs[baseSig.entityID]; ok && prevOwner != owner {
+		return nil, &EntityIDError{
+			EntityID: baseSig.entityID,
+			Err:      ErrIsDuplicated,
+		}
+	}
+	l.sigEntIDs[baseSig.entityID] = owner
 
 	var sig Signal
 	switch tmpPSig := pSig.Signal.(type) {
@@ -509,7 +545,7 @@ func (l *loader) loadMultiplexerSignal(baseSig *signal, pMuxSig *acmelibv1.Multi
 
 	muxedSignals := make(map[string]Signal)
 	for _, pMuxedSig := range pMuxSig.GetSignals() {
-		sig, err := l.loadSignal(pMuxedSig)
+		sig, err := l.loadSignal(pMuxedSig, loaderSignalOwner{EntityKindSignal, muxSig.entityID})
 		if err != nil {
 			return nil, err
 		}
